@@ -119,7 +119,8 @@ def symbolize_stuck(bld, text):
 
 
 def run_storm(arg):
-    bld, fname, fmt, out, threads, forks, delay_us, root, idx = arg
+    bld, fname, fmt, out, threads, forks, delay_us, root, idx = arg[:9]
+    first_delay = arg[9] if len(arg) > 9 else 0
     work = os.path.join(root, "st%03d" % idx)
     conf = os.path.join(work, "conf")
     os.makedirs(conf, exist_ok=True)
@@ -129,7 +130,7 @@ def run_storm(arg):
     env = {"PATH": "/usr/bin:/bin", "TZ": ":/etc/localtime", "VREC_DEVLOG": os.path.join(work, "nodevlog")}
     pl = "%s %s" % (bld.lib, os.path.join(HBIN, "libvrec.so"))
     cmd = ["strace", "-f", "-o", "/dev/null", "-E", "LD_PRELOAD=" + pl, "-e", "trace=openat,read,connect", "-e", "inject=openat,read,connect:delay_exit=%d" % delay_us,
-           os.path.join(HBIN, "vforkstorm"), "--mount", "%s:%s" % (conf, SYSCONF), "--threads", str(threads), "--forks", str(forks), "--child-ms", "8000"]
+           os.path.join(HBIN, "vforkstorm"), "--mount", "%s:%s" % (conf, SYSCONF), "--threads", str(threads), "--forks", str(forks), "--child-ms", "8000", "--first-delay-ms", str(first_delay)]
     if fname == "login-ipaddr":
         # a utmp file with a few hundred entries, so that the lookups really read it
         up = os.path.join(work, "utmp")
@@ -192,7 +193,7 @@ def storm_arm(bld, tr, rng, root, F, tot):
     # zone data, NSS, stdio lazily and under its own locks at that moment)
     for fname, fmt in STORM_FORMATS[:3]:
         for rep in range(10 if tr == "quick" else 150):
-            jobs.append((bld, fname, fmt, "file", 4, 5, 30000, root, idx)); idx += 1
+            jobs.append((bld, fname, fmt, "file", 4, 3, 30000, root, idx, rng.randrange(0, 200))); idx += 1
     for ev in pmap(run_storm, jobs, 8):
         tot["storm_runs"] = tot.get("storm_runs", 0) + 1
         if ev.get("parent_stuck"):
